@@ -60,6 +60,8 @@ func Patterns(tier string) []NamedTP {
 		{"nil", nil},
 		{"pad0", TP(0, 0, false, 3, 0, 0)},
 		{"pad255", TP(255, 255, false, 0, 0, 0)},
+		{"pad200-0", TP(200, 0, false, 0, 0, 0)}, // middle maximum above the end maximum
+		{"pad0-200", TP(0, 200, false, 0, 0, 0)},
 		{"frag", TP(-1, 0, true, 0, 0, 0)},
 		{"nonce-printable", TP(-1, 0, false, 1, 0, 0)},
 		{"nonce-fixed", TP(-1, 0, false, 2, 0, 0)},
